@@ -102,6 +102,45 @@ def showHs (s : Hs.St) : String :=
   let c := match s.c with | .wait => "wait" | .got => "got" | .left => "left" | .ret => "ret"
   s!"r={r s.r} w={r s.w} c={c} cancelled={b01 s.cancelled} buf={s.buf}"
 
+/-! ### conducted schedules of the refreshDebouncer with waiters (Model/Pool.lean, `WDeb`) -/
+
+/-- the flusher runs until it is inside refreshFn (held by the harness) or has returned: whichever ready case the
+    select takes, the critical section that follows clears both request channels -/
+def debSettle (d : WDeb) : WDeb :=
+  if d.f = .select then
+    let wb : Option WakeBy :=
+      if d.token then some .now else if d.timerArmed then some .timer else if d.quitClosed then some .quit else none
+    match wb with
+    | some b => match wstep d (.wake b) with
+      | some d1 => (wstep d1 .lock).getD d1
+      | none => d
+    | none => d
+  else d
+
+/-- (state, waiters whose refresh returned an error) after one harness action; none = does not apply -/
+def debMacro (st : WDeb × List Nat) (tok : String) : Option (WDeb × List Nat) :=
+  let (d, errs) := st
+  match tok with
+  | "now" => (wstep d .refreshNow).map fun d' => (debSettle d', errs)
+  | "deb" => (wstep d .debounce).map fun d' => (debSettle d', errs)
+  | "stop" => (wstep d .stop).map fun d' => (debSettle d', errs)
+  | "fin" => (wstep d .refreshDone).map fun d' => (debSettle d', errs)
+  | "finE" => (wstep d .refreshDone).map fun d' => (debSettle d', errs ++ ls d.cur)
+  | _ => none
+
+def showDeb (st : WDeb × List Nat) : String :=
+  let (d, errs) := st
+  let f := match d.f with | .select => "sel" | .woken => "wok" | .refreshing => "ref" | .exited => "exit"
+  let ws := (List.range d.nextW).map fun w =>
+    if d.served.contains w then (if errs.contains w then "e" else "r") else if d.shut.contains w then "c" else "p"
+  s!"{f}:{String.join ws}"
+
+def runDebMacro (st : WDeb × List Nat) : List String → List String
+  | [] => []
+  | t :: ts => match debMacro st t with
+    | some st' => showDeb st' :: runDebMacro st' ts
+    | none => "skip" :: runDebMacro st ts
+
 /-- ops:
   pipe size=N ks=K auth=A rm=… : act act …
       a conducted schedule of the connect pipeline → the line of states `cur:open:closedconns;…` the model
@@ -117,7 +156,16 @@ def showHs (s : Hs.St) : String :=
       `final` must equal `size`: lost connections are replaced)
   debrace <kind> rounds=R hung=H       → accept iff H = 0 (C17_debouncer_stop_returns)
   sessclose returned=1 panics=0 again=1 queryerr=closed open=0  → accept iff exactly that
-  model <size> <act> <act> ...         → conns/pending/filling/closed/opened after the run, or `stuck` -/
+  model <size> <act> <act> ...         → conns/pending/filling/closed/opened after the run, or `stuck`
+  deb : act act …      a conducted schedule of one refreshDebouncer (acts: now deb fin finE stop; refreshFn is held by the
+      harness until fin/finE) → `<flusher>:<one letter per waiter>` after every action (p pending, r result, e error
+      result, c closed channel), initial state first
+  debobs waiters=N stranded=S late=L latestranded=M stopret=B exited=B sched=…   monitors of one debouncer schedule:
+      a waiter registered before the flusher returned that is never released (C17_waiters_released_partial), stop()
+      returns (C17_debouncer_stop_returns), the flusher exits (C17_flusher_exits); `late` waiters (refreshNow after the
+      flusher returned) are the excluded class of the _partial theorem (C17_cex_waiter_after_exit)
+  debwait rounds=R early=E stranded=S stophung=H flusherleft=F    the same monitors over racing rounds
+  sessref waiters=N returned=M closeret=B leaked=L stack=… open=O    Session.refreshRing callers pending across Session.Close -/
 def step (_ : Unit) (ws : List String) : Unit × String :=
   ((), match ws with
   | "pipe" :: r =>
@@ -139,6 +187,34 @@ def step (_ : Unit) (ws : List String) : Unit × String :=
         else if st > 0 then "reject:no-quiescence"
         else "accept"
       | _, _, _, _, _, _, _ => "bad-op"
+  | "deb" :: ":" :: acts =>
+      let st : WDeb × List Nat := (WDeb.init, [])
+      ";".intercalate (showDeb st :: runDebMacro st acts)
+  | "debobs" :: r =>
+      match kv r "waiters", kv r "stranded", kv r "stopret", kv r "exited" with
+      | some _, some s, some sr, some ex =>
+        if s > 0 then s!"reject:waiter-never-released-{s}"
+        else if sr ≠ 1 then "reject:stop-did-not-return"
+        else if ex ≠ 1 then "reject:flusher-did-not-exit"
+        else "accept"
+      | _, _, _, _ => "bad-op"
+  | "debwait" :: r =>
+      match kv r "stranded", kv r "stophung", kv r "flusherleft" with
+      | some s, some h, some f =>
+        if s > 0 then s!"reject:waiter-never-released-{s}"
+        else if h > 0 then s!"reject:stop-hung-{h}"
+        else if f > 0 then s!"reject:flusher-did-not-exit-{f}"
+        else "accept"
+      | _, _, _ => "bad-op"
+  | "sessref" :: r =>
+      match kv r "waiters", kv r "returned", kv r "closeret", kv r "leaked", kv r "open" with
+      | some n, some m, some c, some l, some o =>
+        if c ≠ 1 then "reject:close-did-not-return"
+        else if l > 0 then s!"reject:goroutines-left-in-gocql-{l}:{(kvs r "stack").getD "?"}"
+        else if m ≠ n then s!"reject:refreshRing-callers-returned-{m}-of-{n}"
+        else if o > 0 then s!"reject:open-after-close-{o}"
+        else "accept"
+      | _, _, _, _, _ => "bad-op"
   | "hsmodel" :: v :: acts =>
       match acts.mapM parseHsAct with
       | some as =>
